@@ -97,9 +97,22 @@ func ZZ_C25_distribution() {
 	accepted := node.NodesListWithoutState(ts, true)
 	vr.Assert(len(accepted) == 7, "seven-accepted")
 	rawWork := make([]*big.Int, len(accepted))
+	// work counts: three nodes range over a table that reaches every clamp of the distribution
+	// (zero work, below avg/7, around the average, above 7*avg); the other four are fixed.
+	// The batch amount stays symbolic: every division in the real code is then by a
+	// path-constant, which keeps the obligations linear (division by a symbolic total is
+	// nonlinear integer arithmetic: all three solvers answered unknown).
+	leadTab := []uint32{0, 1, 10, 1000}
+	signTab := []uint32{0, 7}
+	fixed := [][2]uint32{{10, 0}, {10, 5}, {12, 0}, {9, 1}}
 	for i, cn := range accepted {
-		lead, sign := vr.U32(), vr.U32()
-		vr.Assume(lead > 0)
+		var lead, sign uint32
+		if i < 3 {
+			lead = leadTab[vr.Choose(0, len(leadTab)-1)]
+			sign = signTab[vr.Choose(0, len(signTab)-1)]
+		} else {
+			lead, sign = fixed[i-3][0], fixed[i-3][1]
+		}
 		st.works[cn.IdForNetwork] = [2]uint64{uint64(lead), uint64(sign)}
 		// the code's work measure: lead*1.2 + sign (in 1e-8 units)
 		w := new(big.Int).Mul(big.NewInt(int64(lead)), big.NewInt(100000000))
